@@ -41,6 +41,7 @@ def gen_cases(prop, tier, seed):
             c["nmax"] = 16
     for i, c in enumerate(cases):
         c["id"] = "%s-%05d" % (c["entry"], i)
+        c["allow_dup_candidates"] = True
         c["ru"] = True if prop == "C02" else bool(stable_hash(c["seed"], "ru") % 2)
         c["kwv"] = [0, 0, 1, 2, 3][stable_hash(c["seed"], "kwv") % 5]      # call variant: default / pre-fitted / weights
     return cases
@@ -89,6 +90,11 @@ def run_case(desc, prop):
     except steps.StepBudgetExceeded as ex:
         exc = ("step-budget-exceeded", str(ex))
     except Exception as ex:
+        if c.has_dups and isinstance(ex, ValueError) and "same value" in str(ex):
+            contracts.drain()
+            return {"status": "ok", "violations": [], "nontrivial": False, "cells": ["%s|cmode=%s" % (e.name, c.cmode)],
+                    "monitors": contracts.drain_evals(), "counters": {"duplicate_candidates_rejected": 1},
+                    "observed": dict(poolcase.cell_summary(c), rejected="duplicate candidate indices")}
         exc = ("exception:%s" % type(ex).__name__, "%s: %s" % (type(ex).__name__, str(ex)[:300]))
     finally:
         nsteps = steps.end()
